@@ -53,22 +53,23 @@ type Contract struct {
 		Name string
 		Expr ast.Expr
 	}
-	Valid     *Clause
-	Requires  []Clause
-	Ensures   []Clause
-	PanicsIff bool // panics iff !valid
-	BeforeWr  bool
-	PanicsNev bool
-	HasWrites bool
-	Writes    []Family
-	Modifies  []Clause // whole-object frames (struct fields / maps)
-	Loops     map[int]*LoopSpec
-	Trusted   bool
-	Pure      bool
-	Floats    string // "", "opaque", "ieee", "real"
-	Overflow  string // "", "checked"
-	Mode      string
-	NoRead    []struct {
+	Valid        *Clause
+	Requires     []Clause
+	Ensures      []Clause
+	PanicEnsures []Clause // must hold whenever an explicit panic is reached
+	PanicsIff    bool     // panics iff !valid
+	BeforeWr     bool
+	PanicsNev    bool
+	HasWrites    bool
+	Writes       []Family
+	Modifies     []Clause // whole-object frames (struct fields / maps)
+	Loops        map[int]*LoopSpec
+	Trusted      bool
+	Pure         bool
+	Floats       string // "", "opaque", "ieee", "real"
+	Overflow     string // "", "checked"
+	Mode         string
+	NoRead       []struct {
 		Fam  Family
 		When ast.Expr
 		Src  string
@@ -118,7 +119,7 @@ type ContractSet struct {
 	Errors []string
 }
 
-var keywordRe = regexp.MustCompile(`^(?:(?:func|let|valid|requires|ensures|panics|writes|modifies|loop|invariant|decreases|ensures-after|spec|lemma|pure|trusted|type|noread-before-write|inline|option|hyp|goal|var|witness|go-footprint|go-requires)\b|(?:overflow:|floats:|mode:|props:))`)
+var keywordRe = regexp.MustCompile(`^(?:(?:func|let|valid|requires|ensures|panics|writes|modifies|loop|invariant|decreases|ensures-after|panic-ensures|spec|lemma|pure|trusted|type|noread-before-write|inline|option|hyp|goal|var|witness|go-footprint|go-requires)\b|(?:overflow:|floats:|mode:|props:))`)
 
 // desugarImplies rewrites `a ==> b` (lowest precedence, right associative, at
 // any nesting depth) into implies(a, b).
@@ -415,6 +416,10 @@ func (cs *ContractSet) ParseContractFile(fset *token.FileSet, pkgPath string, fi
 			if c, ok := mk(l, rest); ok {
 				cur.Ensures = append(cur.Ensures, c)
 			}
+		case "panic-ensures":
+			if c, ok := mk(l, rest); ok {
+				cur.PanicEnsures = append(cur.PanicEnsures, c)
+			}
 		case "panics":
 			r := strings.ReplaceAll(rest, " ", "")
 			switch {
@@ -694,7 +699,7 @@ func kindRole(kind string) string {
 		return "go"
 	case kind == "frame" || kind == "call.frame" || kind == "noread" || kind == "modifies":
 		return "frame"
-	case kind == "post" || strings.HasPrefix(kind, "inv.") || kind == "lemma" || kind == "after" || kind == "dec":
+	case kind == "post" || kind == "panic.post" || strings.HasPrefix(kind, "inv.") || kind == "lemma" || kind == "after" || kind == "dec":
 		return "value"
 	default:
 		return "safety"
